@@ -33,6 +33,7 @@ namespace V3
 def dot (a b : V3) : Rat := a.x * b.x + a.y * b.y + a.z * b.z
 def sub (a b : V3) : V3 := ⟨a.x - b.x, a.y - b.y, a.z - b.z⟩
 def smul (s : Rat) (a : V3) : V3 := ⟨s * a.x, s * a.y, s * a.z⟩
+def cross (a b : V3) : V3 := ⟨a.y * b.z - a.z * b.y, a.z * b.x - a.x * b.z, a.x * b.y - a.y * b.x⟩
 /-- component `k` (0, 1, otherwise 2) -/
 def get (a : V3) : Nat → Rat
   | 0 => a.x
@@ -45,6 +46,7 @@ structure M3 where
   r0 : V3
   r1 : V3
   r2 : V3
+deriving DecidableEq
 
 /-- matrix times vector: `(perm * n).sum(axis=1)` -/
 def M3.mulVec (K : M3) (n : V3) : V3 := ⟨K.r0.dot n, K.r1.dot n, K.r2.dot n⟩
@@ -232,6 +234,47 @@ def faceOK (g : Grid) (f : Nat) : Bool :=
 
 def WellFormed (g : Grid) : Prop :=
   (∀ f, f < g.nf → faceOK g f = true) ∧ (∀ h ∈ g.hf, h.face < g.nf)
+
+/-! ### decidable grid-level input conditions (used by the grid-level theorems) -/
+
+/-- `WellFormed` as a computation (reported by the driver for every real grid) -/
+def wellFormedB (g : Grid) : Bool :=
+  (List.range g.nf).all (faceOK g) && g.hf.all (fun h => decide (h.face < g.nf))
+
+/-- outward normal of a half-face: `n = sgn * face_normal` -/
+def outN (g : Grid) (h : HF) : V3 := V3.smul h.sgn (g.normal h.face)
+
+/-- boundary bookkeeping is consistent: `bndr` lists each boundary face once, a face is listed iff it has
+    exactly one cell (the others have two and carry no Neumann flag), every listed face is Dirichlet or
+    Neumann (no Robin) -/
+def bndOK (g : Grid) : Bool :=
+  decide g.bndr.Nodup
+  && g.bndr.all (fun f => decide (f < g.nf) && (hfOf g f).length == 1 && (neuAll g f || dirEff g f))
+  && (List.range g.nf).all (fun f => decide (f ∈ g.bndr) || ((hfOf g f).length == 2 && !neuAll g f))
+
+/-- K-orthogonal half-face, decidable form: the co-normal `K n` is parallel to `d` (vanishing cross
+    product) and `d ≠ 0` -/
+def korthHF (g : Grid) (h : HF) : Bool :=
+  ((g.perm h.cell).mulVec (outN g h)).cross (dvec g h) == ⟨0, 0, 0⟩ && (dvec g h).dot (dvec g h) != 0
+
+/-- K-orthogonal grid with the constant tensor `K`: every half-face K-orthogonal with a non-vanishing half
+    transmissibility, and the two half transmissibilities of an interior face do not cancel -/
+def korthGrid (g : Grid) (K : M3) : Bool :=
+  g.hf.all (fun h => g.perm h.cell == K && korthHF g h && tHalf g h != 0)
+  && (List.range g.nf).all (fun f =>
+        match hfOf g f with
+        | [h1, h2] => tHalf g h1 + tHalf g h2 != 0
+        | _ => true)
+
+/-- "Cartesian / tensor grid with positive diagonal permeability", decidable form: for every half-face
+    the tensor of its cell is diagonal with positive entries and the outward normal points along `d`
+    (parallel, same direction) -/
+def cartLike (g : Grid) : Bool :=
+  g.hf.all (fun h =>
+    let K := g.perm h.cell
+    K.r0.y == 0 && K.r0.z == 0 && K.r1.x == 0 && K.r1.z == 0 && K.r2.x == 0 && K.r2.y == 0
+    && decide (0 < K.r0.x) && decide (0 < K.r1.y) && decide (0 < K.r2.z)
+    && (outN g h).cross (dvec g h) == ⟨0, 0, 0⟩ && decide (0 < (outN g h).dot (dvec g h)))
 
 /-! ### TPFA on the 2-D grid structure of the C11 MPFA model (`PorepyVerif.C11.Grid2`)
 
